@@ -16,6 +16,40 @@ def hx(b):
     return b.hex() if b else "-"
 
 
+# ------------------------------------------------------------------ key representations (KeyEvent::Parse / KeySequence::Parse)
+KEYNAMES = dict(XK, minus=0x2d, equal=0x3d, comma=0x2c, period=0x2e, slash=0x2f, semicolon=0x3b, grave=0x60, apostrophe=0x27,
+                bracketleft=0x5b, bracketright=0x5d, backslash=0x5c, Page_Up=0xff55, Page_Down=0xff56, ISO_Left_Tab=0xfe20,
+                F5=0xffc2, F6=0xffc3, Shift_L=0xffe1, Shift_R=0xffe2, Control_L=0xffe3, Control_R=0xffe4, Caps_Lock=0xffe5,
+                Eisu_toggle=0xff30)
+MODNAMES = {"Shift": SHIFT, "Lock": LOCK, "Control": CONTROL, "Alt": ALT, "Super": SUPER, "Release": RELEASE}
+
+
+def kev(rep):
+    """'Control+p' -> (keycode, modifier) the way KeyEvent::Parse reads it (the names used by the synthetic schemas only)"""
+    if len(rep) == 1:
+        return ord(rep), 0
+    parts = rep.split("+")
+    mask = 0
+    for m in parts[:-1]:
+        mask |= MODNAMES[m]
+    nm = parts[-1]
+    return (ord(nm) if len(nm) == 1 else KEYNAMES[nm]), mask
+
+
+def kseq(rep):
+    """KeySequence::Parse: single characters, {Name} for everything else"""
+    out, i = [], 0
+    while i < len(rep):
+        if rep[i] == "{" and i + 1 < len(rep):
+            j = rep.index("}", i + 1)
+            out.append(kev(rep[i + 1:j]))
+            i = j + 1
+        else:
+            out.append(kev(rep[i]))
+            i += 1
+    return out
+
+
 # ------------------------------------------------------------------ schema corpus (DESIGN §2)
 SCHEMAS = {
     "vs_script": dict(procs=["speller", "selector", "navigator", "express_editor"], alphabet="abc", delimiters="'",
@@ -58,6 +92,75 @@ SCHEMAS = {
                           full={",": "，", ".": {"commit": "．"}, "/": ["／", "÷"], '"': {"pair": ["＂", "“"]}, ";": "；",
                                 " ": {"commit": "　"}, "$": ["＄", "￥", "$"], "-": {"commit": "－"}, "%": ["％", "‰"],
                                 "#": ["＃", "♯", "№"]})),
+    # the key binder inside the model, first in the processor list as in the stock schemas.  Bindings cover every `when` x every
+    # kind of action: the stock Emacs / Tab / paging set (minus, equal, comma, period under `paging` / `has_menu`: with the
+    # punctuator behind them, and ReinterpretPagingKey's period-then-letter case), option toggles incl. full_shape (Shift+space),
+    # set_option / unset_option, a radio group (by name, by @index, unset -> reset value), an index with no switch behind it (`@9`
+    # becomes an option name), send_sequence (from idle, composing, empty), targets that are themselves bound (not redirected
+    # again), one key bound under several conditions written in the "wrong" order and twice under the same condition (Bind
+    # sorts by condition and puts a later binding of the same condition first), a binding on a key release
+    "vs_kb": dict(procs=["key_binder", "speller", "punctuator", "selector", "navigator", "express_editor"], alphabet="abc", delimiters="'",
+                  pageSize=3, uniq=1, punct=dict(
+                      use_space=0,
+                      half={",": "，", ".": {"commit": "。"}, "/": ["、", "／", "/"], "-": ["－", "-"], "=": "＝", '"': {"pair": ["“", "”"]}},
+                      full={",": "，", ".": {"commit": "．"}, "/": ["／", "÷"], "-": {"commit": "－"}, "=": ["＝", "="], " ": {"commit": "　"}}),
+                  switches=[dict(name="ascii_punct"), dict(options=["opt_a", "opt_b", "opt_c"], reset=1), dict(name="soft_cursor", reset=0),
+                            dict(name="full_shape")],
+                  kb=[dict(when="composing", accept="Control+p", send="Up"), dict(when="composing", accept="Control+n", send="Down"),
+                      dict(when="composing", accept="Control+b", send="Left"), dict(when="composing", accept="Control+f", send="Right"),
+                      dict(when="composing", accept="Control+a", send="Home"), dict(when="composing", accept="Control+e", send="End"),
+                      dict(when="composing", accept="Control+d", send="Delete"), dict(when="composing", accept="Control+k", send="Shift+Delete"),
+                      dict(when="composing", accept="Control+g", send="Escape"), dict(when="composing", accept="Alt+v", send="Page_Up"),
+                      dict(when="composing", accept="Control+v", send="Page_Down"), dict(when="composing", accept="ISO_Left_Tab", send="Shift+Left"),
+                      dict(when="composing", accept="Shift+Tab", send="Shift+Left"), dict(when="composing", accept="Tab", send="Shift+Right"),
+                      dict(when="composing", accept="minus", send="Escape"), dict(when="paging", accept="minus", send="Page_Up"),
+                      dict(when="has_menu", accept="equal", send="Page_Up"), dict(when="has_menu", accept="equal", send="Page_Down"),
+                      dict(when="paging", accept="comma", send="Page_Up"), dict(when="has_menu", accept="period", send="Page_Down"),
+                      dict(when="predicting", accept="comma", send="comma"), dict(when="always", accept="Control+Shift+2", toggle="ascii_mode"),
+                      dict(when="always", accept="Control+Shift+3", toggle="full_shape"), dict(when="always", accept="Shift+space", toggle="full_shape"),
+                      dict(when="always", accept="Control+period", toggle="ascii_punct"), dict(when="always", accept="Control+l", toggle="_linear"),
+                      dict(when="always", accept="F5", set_option="soft_cursor"), dict(when="always", accept="Release+F5", unset_option="soft_cursor"),
+                      dict(when="always", accept="Control+r", toggle="opt_a"), dict(when="always", accept="Control+s", set_option="opt_c"),
+                      dict(when="always", accept="Control+u", unset_option="opt_c"), dict(when="has_menu", accept="Control+u", unset_option="opt_b"),
+                      dict(when="always", accept="Control+i", toggle="@1"), dict(when="always", accept="Control+o", toggle="@0"),
+                      dict(when="always", accept="Control+9", toggle="@9"),
+                      dict(when="composing", accept="Control+j", send_sequence="{Home}{Shift+Right}"),
+                      dict(when="always", accept="Control+m", send_sequence="ab,"), dict(when="always", accept="Control+z", send_sequence=""),
+                      dict(when="always", accept="Control+t", send="Control+p"), dict(when="has_menu", accept="Control+y", send="period"),
+                      dict(when="always", accept="Control+w", send_sequence="a{Control+Shift+3}{Control+m}b")]),
+    # a fluid-editor schema without punctuator whose alphabet holds the period (not an initial): `a.b` is legal input, the period
+    # pages down while a menu is open, and a letter right after it puts the period into the input after all
+    # (KeyBinder::ReinterpretPagingKey); no `switches:` (option actions find nothing: plain set / toggle); vertical layout toggle
+    "vs_kbf": dict(procs=["key_binder", "speller", "selector", "navigator", "fluid_editor"], alphabet="abcd.", initials="abcd", delimiters="'",
+                   pageSize=2, uniq=0, pageDownCycle=1,
+                   kb=[dict(when="paging", accept="comma", send="Page_Up"), dict(when="has_menu", accept="period", send="Page_Down"),
+                       dict(when="paging", accept="minus", send="Page_Up"), dict(when="has_menu", accept="equal", send="Page_Down"),
+                       dict(when="composing", accept="Tab", send="Shift+Right"), dict(when="composing", accept="Shift+Tab", send="Shift+Left"),
+                       dict(when="composing", accept="Control+p", send="Up"), dict(when="composing", accept="Control+n", send="Down"),
+                       dict(when="composing", accept="Control+a", send="Home"), dict(when="composing", accept="Control+e", send="End"),
+                       dict(when="composing", accept="Control+g", send="Escape"), dict(when="always", accept="Control+l", toggle="_vertical"),
+                       dict(when="always", accept="Control+Shift+2", toggle="ascii_mode"), dict(when="always", accept="Control+9", toggle="@9"),
+                       dict(when="always", accept="Control+s", set_option="opt_c"), dict(when="always", accept="Control+u", unset_option="opt_c"),
+                       dict(when="has_menu", accept="Control+y", send="period"), dict(when="always", accept="Control+m", send_sequence="a.b"),
+                       dict(when="composing", accept="Control+k", send_sequence="{BackSpace}{BackSpace}")]),
+    # the ascii composer inside the model, first in the processor list as in the stock schemas: every switch key with every
+    # style (inline_ascii, commit_text, commit_code, clear; a `noop` entry, which is not loaded; Caps_Lock: inline_ascii, which
+    # LoadConfig turns into clear), good_old_caps_lock off / on, the key binder behind it (has_menu is off in ascii_mode; a
+    # send_sequence that taps Shift_L through the nested chain), `ascii_mode` declared as a switch with a reset value
+    "vs_ac": dict(procs=["ascii_composer", "key_binder", "speller", "punctuator", "selector", "navigator", "express_editor"], alphabet="abc",
+                  delimiters="'", pageSize=3, uniq=1, punct=dict(
+                      use_space=0, half={",": "，", ".": {"commit": "。"}, "/": ["、", "／", "/"]}, full={",": "，", ".": {"commit": "．"}, "/": ["／", "÷"]}),
+                  ascii=dict(good_old_caps_lock=0, switch_key={"Shift_L": "inline_ascii", "Shift_R": "commit_text", "Control_L": "commit_code",
+                                                               "Control_R": "clear", "Caps_Lock": "inline_ascii", "Eisu_toggle": "inline_ascii"}),
+                  switches=[dict(name="ascii_mode", reset=0), dict(name="ascii_punct")],
+                  kb=[dict(when="has_menu", accept="period", send="Page_Down"), dict(when="paging", accept="comma", send="Page_Up"),
+                      dict(when="always", accept="Control+Shift+2", toggle="ascii_mode"), dict(when="composing", accept="Control+g", send="Escape"),
+                      dict(when="always", accept="Control+q", send_sequence="{Shift_L}{Release+Shift_L}"),
+                      dict(when="always", accept="Control+m", send_sequence="ab"), dict(when="has_menu", accept="Control+n", send="Down"),
+                      dict(when="composing", accept="Control+j", send_sequence="{Shift_R}{Shift+Release+Shift_R}a")]),
+    "vs_acf": dict(procs=["ascii_composer", "speller", "selector", "navigator", "fluid_editor"], alphabet="abcd", delimiters="'", pageSize=2, uniq=0,
+                   ascii=dict(good_old_caps_lock=1, switch_key={"Shift_L": "commit_code", "Shift_R": "inline_ascii", "Control_L": "clear",
+                                                                "Control_R": "noop", "Caps_Lock": "commit_text", "Eisu_toggle": "commit_text"})),
 }
 
 
@@ -129,12 +232,70 @@ def schema_yaml(sid, s):
             y += ["  use_space: true"]
         for shape in ("half", "full"):
             y += ["  %s_shape:" % shape] + ["    %s: %s" % (_yq(k), _punct_yaml_value(d)) for k, d in P[shape].items()]
+    for sw in s.get("switches", []):
+        if "name" in sw:
+            y2 = ["  - name: %s" % sw["name"], "    states: [off, on]"]
+        else:
+            y2 = ["  - options: [%s]" % ", ".join(sw["options"]), "    states: [%s]" % ", ".join("s%d" % i for i in range(len(sw["options"])))]
+        if "reset" in sw:
+            y2.append("    reset: %d" % sw["reset"])
+        y += (["switches:"] if sw is s["switches"][0] else []) + y2
+    if s.get("ascii"):
+        y += ["ascii_composer:", "  good_old_caps_lock: %s" % ("true" if s["ascii"].get("good_old_caps_lock") else "false"), "  switch_key:"]
+        y += ["    %s: %s" % kv for kv in s["ascii"]["switch_key"].items()]
+    if s.get("kb"):
+        y += ["key_binder:", "  bindings:"]
+        for b in s["kb"]:
+            kind = next(k for k in KB_KINDS if k in b)
+            y.append("    - {when: %s, accept: %s, %s: %s}" % (b["when"], _yq(b["accept"]), kind, _yq(b[kind])))
     return "\n".join(y) + "\n"
+
+
+KB_KINDS = {"send": "s", "send_sequence": "s", "toggle": "t", "set_option": "o", "unset_option": "u", "select": "x"}
+KB_WHEN = {"predicting": "r", "paging": "p", "has_menu": "m", "composing": "c", "always": "a"}
+
+
+def _kb_env(s):
+    """key_binder/bindings and switches as model data:
+    kb=<when>:<keycode>:<mask>:<kind>:<arg>;…   kind s: arg = code.mask,code.mask… (- = empty); t / o / u: arg = option name in hex; x: select
+    switches=t:<name hex>:<reset>;r:<name hex>,<name hex>…:<reset>;…   (reset -1 = not given)"""
+    if not s.get("kb") and not s.get("switches"):
+        return ""
+    ents = []
+    for b in s.get("kb", []):
+        code, mask = kev(b["accept"])
+        kind = next(k for k in KB_KINDS if k in b)
+        if kind == "send":
+            arg = "%d.%d" % kev(b["send"])
+        elif kind == "send_sequence":
+            arg = ",".join("%d.%d" % k for k in kseq(b["send_sequence"])) or "-"
+        else:
+            arg = hx(b[kind])
+        ents.append("%s:%d:%d:%s:%s" % (KB_WHEN[b["when"]], code, mask, KB_KINDS[kind], arg))
+    sws = []
+    for sw in s.get("switches", []):
+        if "name" in sw:
+            sws.append("t:%s:%d" % (hx(sw["name"]), sw.get("reset", -1)))
+        else:
+            sws.append("r:%s:%d" % (",".join(hx(o) for o in sw["options"]), sw.get("reset", -1)))
+    return " kb=%s switches=%s" % (";".join(ents) or "-", ";".join(sws) or "-")
+
+
+AC_STYLES = {"inline_ascii": "i", "commit_text": "t", "commit_code": "c", "clear": "x"}      # `noop` entries are not loaded
+
+
+def _ascii_env(s):
+    """ascii_composer as model data: asciiKeys=<keycode>:<style>;…  goodOldCaps=0|1"""
+    A = s.get("ascii")
+    if not A:
+        return ""
+    ents = ["%d:%s" % (KEYNAMES[k], AC_STYLES[v]) for k, v in A["switch_key"].items() if v in AC_STYLES]
+    return " asciiKeys=%s goodOldCaps=%d" % (";".join(ents) or "-", A.get("good_old_caps_lock", 0))
 
 
 def env_line(sid, s):
     procs = ",".join(s["procs"])
-    return _env_line(sid, s, procs) + _punct_env(s)
+    return _env_line(sid, s, procs) + _punct_env(s) + _kb_env(s) + _ascii_env(s)
 
 
 def _punct_env(s):
@@ -159,6 +320,10 @@ def make_workspace(d, schema_ids, extra_files=None):
     os.makedirs(d)
     with open(os.path.join(d, "default.yaml"), "w") as f:
         f.write("config_version: '1'\nschema_list:\n" + "".join("  - schema: %s\n" % s for s in schema_ids))
+        # a new session starts on the first schema of the list (what the driver models), not on the one some session selected
+        # last (Switcher::CreateSchema reads var/previously_selected_schema from the shared user.yaml otherwise: a schema whose
+        # switches carry `reset:` values would leave its options in every session created after it was selected anywhere)
+        f.write("switcher:\n  fix_schema_list_order: true\n")
     for sid in schema_ids:
         if sid in SCHEMAS:
             with open(os.path.join(d, sid + ".schema.yaml"), "w") as f:
@@ -273,6 +438,129 @@ def gen_punct_ops(rng, s):
     return out
 
 
+def kb_states(rng, s):
+    """op prefixes that put a session of a key-binder schema into each state a binding's condition distinguishes: idle,
+    composing without a menu, menu open, after paging (tag `paging` on the last segment), caret inside the input, a selection
+    made; plus, for schemas with a punctuator, a punctuation segment with alternatives"""
+    alpha = [ch for ch in s["alphabet"] if ch.isalpha()]
+    a = lambda: "key %d 0" % ord(rng.choice(alpha))
+    st = {"idle": [], "menu": [a() for _ in range(rng.choice([1, 2, 3]))],
+          "paged": [a(), rng.choice(["key %d 0" % XK["Next"], "page +", "key %d 0" % XK["Down"], "key 46 0", "key 61 0"])],
+          "paged2": [a(), "key %d 0" % XK["Next"], "key %d 0" % XK["Next"], rng.choice(["key %d 0" % XK["Prior"], "key 44 0", "key 45 0"])],
+          "caret_inside": [a(), a(), a(), rng.choice(["key %d 0" % XK["Left"], "caret 1", "key %d 0" % XK["Home"], "key 98 4"])],
+          "selected": [a(), a(), rng.choice(["select 1", "select_page 0", "key %d 0" % XK["space"], "key 49 0"])],
+          "no_menu": ["input %s" % hx(rng.choice(["'", "1", "zz", "a1"]))]}
+    if s.get("punct"):
+        ks = [k for k, d in s["punct"]["half"].items() if isinstance(d, list)]
+        if ks:
+            st["punct_alt"] = ["key %d 0" % ord(rng.choice(ks))] * rng.choice([1, 2])
+    return st
+
+
+def kb_keys(s):
+    """the bound keys of the schema as (code, mask), in configuration order without repetitions"""
+    out = []
+    for b in s["kb"]:
+        k = kev(b["accept"])
+        if k not in out:
+            out.append(k)
+    return out
+
+
+def gen_kb_ops(rng, s):
+    """ops for a schema with a key binder: a bound key pressed in one of the states of kb_states (sometimes with one modifier
+    bit more or less: the lookup is on the exact keycode + modifier pair), followed by keys that show what it did; the
+    period / comma / letter sequences ReinterpretPagingKey looks at (with modified keys, releases, API calls and unbound keys
+    in between: `last_key_` moves on every key press the binder sees, not on releases); runs of option bindings"""
+    alpha = [ch for ch in s["alphabet"] if ch.isalpha()]
+    a = lambda: "key %d 0" % ord(rng.choice(alpha))
+    keys = kb_keys(s)
+    r = rng.random()
+    if r < 0.22:
+        # period / comma / letter
+        pre = rng.choice([[a()], [a(), a()], ["input %s" % hx(rng.choice(["a", "ab", "a.", "a.b", "ab'"]))], [], [a(), "key %d 0" % XK["Left"]]])
+        mid = []
+        for _ in range(rng.choice([1, 1, 2, 2, 3])):
+            mid.append(rng.choice(["key 46 0", "key 46 0", "key 46 0", "key 44 0", "key 46 %d" % SHIFT, "key 46 %d" % RELEASE, "key %d 0" % XK["Next"],
+                                   "key %d 0" % XK["BackSpace"], "page +", "key 65505 0", "key 65505 %d" % RELEASE, "key 46 %d" % LOCK, "clear",
+                                   "key 49 0", "highlight 1", "key %d %d" % (ord(rng.choice(alpha)), RELEASE), "key %d 0" % XK["Left"]]))
+        post = [rng.choice([a(), a(), a(), "key %d 0" % ord("z"), "key %d %d" % (ord(rng.choice(alpha)), SHIFT), "key 65 0"])]
+        if rng.random() < 0.5:
+            post.append(rng.choice([a(), "key 46 0", "key %d 0" % XK["space"], "key %d 0" % XK["BackSpace"], "read_commit"]))
+        return pre + mid + post
+    if r < 0.34:
+        # option bindings in a row (radio groups cycle, set / unset, indices), in any state
+        optk = [kev(b["accept"]) for b in s["kb"] if not ("send" in b or "send_sequence" in b)]
+        st = kb_states(rng, s)
+        out = list(st[rng.choice(sorted(st))])
+        for _ in range(rng.choice([1, 2, 3, 5])):
+            out.append("key %d %d" % rng.choice(optk))
+        out.append(rng.choice([a(), "key %d 0" % XK["space"], "key 47 0", "key %d 0" % XK["Down"], "read_commit", "key 32 %d" % SHIFT]))
+        return out
+    st = kb_states(rng, s)
+    out = list(st[rng.choice(sorted(st))])
+    for _ in range(rng.choice([1, 1, 2, 3])):
+        code, mask = rng.choice(keys)
+        if rng.random() < 0.12:
+            mask ^= rng.choice([LOCK, SHIFT, RELEASE, CONTROL, ALT])
+        out.append("key %d %d" % (code, mask))
+    out += rng.choice([[], [], [a()], ["key %d 0" % XK["space"]], ["key %d 0" % XK["BackSpace"]], ["key %d 0" % XK["Escape"]], ["read_commit"],
+                       ["key 46 0"], ["key 44 0"], ["key 45 0"], ["key 61 0"], ["select_page 1"], ["key %d 0" % XK["Return"]], ["commit"],
+                       ["key %d 0" % XK["Down"], "key %d 0" % XK["Up"]]])
+    return out
+
+
+AC_KEYS = ["Shift_L", "Shift_R", "Control_L", "Control_R", "Caps_Lock", "Eisu_toggle"]
+
+
+def ac_tap(name, rel_mask=None):
+    """press + release of a switch key; a real client reports the release of Shift / Control with the modifier's own bit set"""
+    code = KEYNAMES[name]
+    own = SHIFT if name.startswith("Shift") else CONTROL if name.startswith("Control") else 0
+    return ["key %d 0" % code, "key %d %d" % (code, RELEASE | (own if rel_mask is None else rel_mask))]
+
+
+def gen_ac_ops(rng, s):
+    """ops for a schema with an ascii composer: taps of the switch keys (release reported with or without the modifier's own
+    bit), a switch key held while another key / another switch key / an API call happens, Caps_Lock with the Lock bit set or
+    clear, letters while Caps Lock is on, typing and editing in ascii mode (inline composition, direct commit when idle), ending
+    the inline mode by commit / clear / BackSpace / Escape / selection, ascii_mode set through the API"""
+    alpha = s["alphabet"]
+    a = lambda: "key %d 0" % ord(rng.choice(alpha))
+    pre = rng.choice([[], [], [a()], [a(), a()], [a(), a(), "select_page 1"], [a(), "key %d 0" % XK["Left"]], ["input %s" % hx(rng.choice(["'", "a1", "ab"]))],
+                      ["option ascii_mode 1"], ["option ascii_mode 1", a()], [a(), "key %d 0" % XK["Next"]]])
+    r = rng.random()
+    k = rng.choice(AC_KEYS)
+    code = KEYNAMES[k]
+    if r < 0.40:
+        mid = ac_tap(k, rng.choice([None, None, 0]))
+        if rng.random() < 0.3:
+            mid += ac_tap(rng.choice(AC_KEYS))
+    elif r < 0.60:
+        # held while something else happens
+        other = rng.choice([a(), "key %d 0" % KEYNAMES[rng.choice(AC_KEYS[:4])], "key %d %d" % (KEYNAMES[rng.choice(AC_KEYS[:4])], RELEASE),
+                            "select 0", "caret 0", "key %d %d" % (ord(rng.choice(alpha)), RELEASE), "key 65 %d" % SHIFT, "key 32 %d" % SHIFT,
+                            "key %d %d" % (ord(rng.choice(alpha)), CONTROL), "key %d %d" % (code, SHIFT | CONTROL), "key %d %d" % (code, ALT)])
+        mid = ["key %d 0" % code, other, "key %d %d" % (code, RELEASE)]
+    elif r < 0.75:
+        # Caps Lock: the Lock bit is clear when it is about to be turned on (IBus), set while it is on
+        mid = rng.choice([["key %d 0" % KEYNAMES["Caps_Lock"], "key %d %d" % (KEYNAMES["Caps_Lock"], RELEASE | LOCK)],
+                          ["key %d %d" % (KEYNAMES["Caps_Lock"], LOCK), "key %d %d" % (KEYNAMES["Caps_Lock"], RELEASE)],
+                          ["key %d 0" % KEYNAMES["Caps_Lock"]], []])
+        for _ in range(rng.choice([1, 2, 3])):
+            mid.append(rng.choice(["key %d %d" % (ord(rng.choice(alpha)), LOCK), "key %d %d" % (ord(rng.choice("ABZ")), LOCK | SHIFT), "key 49 %d" % LOCK,
+                                   "key %d %d" % (ord(rng.choice(alpha)), LOCK | RELEASE), "key %d %d" % (ord(rng.choice(alpha)), LOCK | CONTROL),
+                                   "key %d %d" % (XK["BackSpace"], LOCK), "key 32 %d" % LOCK, a()]))
+    else:
+        mid = ac_tap(rng.choice(["Shift_L", "Shift_R", "Eisu_toggle"])) if rng.random() < 0.7 else ["option ascii_mode 1"]
+    post = []
+    for _ in range(rng.choice([1, 2, 3, 4])):
+        post.append(rng.choice([a(), a(), "key 65 %d" % SHIFT, "key 49 0", "key 32 0", "key 47 0", "key 46 0", "key 127 0", "key %d 0" % XK["BackSpace"],
+                                "key %d 0" % XK["Return"], "key %d 0" % XK["Escape"], "key %d 0" % XK["Left"], "commit", "clear", "select_page 0",
+                                "read_commit", "input %s" % hx(rng.choice(["", "ab"])), "key %d %d" % (ord(rng.choice(alpha)), RELEASE), "option ascii_mode 0"]))
+    return pre + mid + post
+
+
 def gen_history(rng, sid, s, n, profile="mixed"):
     """one session history on schema sid; profile selects the op mix."""
     alpha = s["alphabet"]
@@ -282,7 +570,13 @@ def gen_history(rng, sid, s, n, profile="mixed"):
     edit_keys = [XK["BackSpace"], XK["Delete"], XK["KP_Left"], XK["KP_Right"], XK["Right"], XK["Home"], XK["End"], XK["Escape"]]
     punct = s.get("punct")
     for _ in range(n):
-        if punct and profile != "edit" and rng.random() < 0.30:
+        if s.get("ascii") and profile != "edit" and rng.random() < 0.20:
+            ops += gen_ac_ops(rng, s)
+            continue
+        if s.get("kb") and profile != "edit" and rng.random() < (0.10 if s.get("ascii") else 0.20):
+            ops += gen_kb_ops(rng, s)
+            continue
+        if punct and profile != "edit" and rng.random() < (0.10 if s.get("kb") else 0.30):
             ops += gen_punct_ops(rng, s)
             continue
         r = rng.random()
@@ -373,6 +667,17 @@ def parse_obs(line):
 
 def unhex(h):
     return b"" if h in ("-", None) else bytes.fromhex(h)
+
+
+# the options the harness / driver print as `opts=` (one 0/1 per name, same order on both sides)
+REPORTED_OPTIONS = ["ascii_mode", "full_shape", "ascii_punct", "soft_cursor", "_linear", "_vertical", "_horizontal", "opt_a", "opt_b", "opt_c", "@9"]
+
+
+def reported_options(o):
+    v = (o or {}).get("opts")
+    if not v or len(v) != len(REPORTED_OPTIONS):
+        return {}
+    return {n: ch == "1" for n, ch in zip(REPORTED_OPTIONS, v)}
 
 
 # ------------------------------------------------------------------ batches, monitors, shrinking
@@ -554,6 +859,7 @@ def punct_stats(ps, st, s, op, o):
         kd = "option:" + w[1]
         st[w[1]] = w[2] != "0"
     ps["op_kinds"][kd] = ps["op_kinds"].get(kd, 0) + 1
+    st.update({k: v for k, v in reported_options(o).items() if k in ("full_shape", "ascii_punct")})   # a binding may have changed them
     ps["obs_full_shape_on"] += bool(st.get("full_shape"))
     ps["obs_ascii_punct_on"] += bool(st.get("ascii_punct"))
     sg = o.get("segs", "")
@@ -571,6 +877,10 @@ def eval_history(c, exe, ws, rows, sid, ops, monitor, tag="h"):
     rc, out, impl, model = run_both(c, exe, ws, script, tag)
     res = {"rc": rc, "impl": impl, "model": model, "first_diff": None, "first_viol": None, "log": out[-2500:] if rc else ""}
     state = {}
+    if any("stall=1" in l for l in impl):
+        # the process was stalled between a Shift / Control press and its release (harness): timing-dependent, inconclusive
+        res["stalled"] = True
+        return res
     for i, (h, j, op) in enumerate(index):
         if i >= len(impl):
             break
@@ -605,9 +915,13 @@ def session_check(c, pid, monitor, histories, rows_for, exe, ws, what_prop, repo
             rc, out, impl, model = run_both(c, exe, ws, script, "b%s" % tid)
             states = {}
             bad_hist = {}
+            stalled = set(h for i, (h, j, op) in enumerate(index) if i < len(impl) and "stall=1" in impl[i])
+            stats["stalled_histories"] = stats.get("stalled_histories", 0) + len(stalled)
             for i, (h, j, op) in enumerate(index):
                 if i >= len(impl):
                     break
+                if h in stalled:
+                    continue          # timing-dependent (see the harness): set aside, counted
                 o = parse_obs(impl[i])
                 if j >= 0:
                     stats["ops"] += 1
@@ -948,6 +1262,97 @@ def punct_grid(rows_for, hs):
                        ["option ascii_punct 0", "key %d 0" % ord(ch)] + end, tid))
 
 
+def kb_grid(rows_for, hs, rng=None):
+    """directed: on each schema with a key binder, every bound key in every state (idle, composing without a menu, menu open,
+    after paging forward, after paging forward and back, caret inside, after a selection, a punctuation segment with
+    alternatives), followed by the same key again and by keys that show what happened; then the period / comma / letter sequences
+    of ReinterpretPagingKey; then each option binding pressed four times in a row (toggles flip back, radio groups cycle).
+    With `rng` (quick tier): per key a seeded sample of 4 of the states, per ordered pair of group bindings one in three."""
+    rows = [("a", "啊", "", ""), ("a", "阿", "c", ""), ("a", "呵", "", ""), ("a", "吖", "", ""), ("a", "锕", "", ""), ("a", "嗄", "", ""), ("a", "腌", "", ""),
+            ("ab", "阿爸", "", ""), ("b", "吧", "", ""), ("b", "把", "", ""), ("a.b", "点", "", ""), ("c", "从", "", "")]
+    A, B = "key 97 0", "key 98 0"
+    for sid, s in SCHEMAS.items():
+        if not s.get("kb"):
+            continue
+        tid = "kg_" + sid
+        rows_for[tid] = rows
+        end = ["key %d 0" % XK["space"], "read_commit"]
+        states = {"idle": [], "menu": [A], "menu2": [A, B], "paged": [A, "key %d 0" % XK["Next"]],
+                  "paged_back": [A, "key %d 0" % XK["Next"], "key %d 0" % XK["Next"], "key %d 0" % XK["Prior"]],
+                  "api_paged": [A, "page +"], "caret_inside": [A, B, A, "key %d 0" % XK["Left"]], "caret_home": [A, B, "key %d 0" % XK["Home"]],
+                  "selected": [A, B, A, "select 1"], "no_menu": ["input 27"]}
+        if s.get("punct"):
+            states["punct_alt"] = ["key 47 0", "key 47 0"]
+            states["full_idle"] = ["option full_shape 1"]
+            states["full_menu"] = ["option full_shape 1", A]
+            states["ascii_menu"] = ["option ascii_mode 1", A]
+        for code, mask in kb_keys(s):
+            key = "key %d %d" % (code, mask)
+            sts = list(states.values()) if rng is None else rng.sample(list(states.values()), 4)
+            for st in sts:
+                hs.append((sid, st + [key, key, "key %d 0" % XK["Down"], key] + end, tid))
+        dot, com = "key 46 0", "key 44 0"
+        for seq in ([A, dot, B], [A, dot, dot, B], [A, dot, com, B], [A, com, dot, B], [A, dot, com, dot, B], [A, dot, "key 46 %d" % RELEASE, B],
+                    [A, dot, "key 65505 0", B], [A, dot, "key 66 %d" % SHIFT, B], [A, dot, "key 122 0"], [A, dot, "clear", B], [A, dot, "clear", "input 61", B],
+                    [A, dot, "key %d 0" % XK["Left"], B], [A, B, "key %d 0" % XK["Left"], dot, A], ["input 612e", "key %d 0" % XK["Home"], dot, B],
+                    [A, dot, B, dot, A], [A, dot, "key %d 0" % XK["BackSpace"], B], [dot, A], [A, "key 61 0", B], [A, dot, "select 0", B],
+                    ["input 612e", dot, B], [A, dot, "key %d %d" % (XK["Left"], RELEASE), B], [A, "key 109 4", dot, B]):
+            hs.append((sid, seq + [A] + end, tid))
+        for b in s["kb"]:
+            if "send" in b or "send_sequence" in b:
+                continue
+            key = "key %d %d" % kev(b["accept"])
+            for st in ([], [A], ["key 47 0"] if s.get("punct") else [A, B]):
+                hs.append((sid, st + [key] * 4 + end, tid))
+        # bindings of one radio group interleaved
+        grp = ["key %d %d" % kev(b["accept"]) for b in s["kb"] if any(str(b.get(k, "")).startswith(("opt_", "@")) for k in ("toggle", "set_option", "unset_option"))]
+        for i in range(len(grp)):
+            for j in range(len(grp)):
+                if rng is None or rng.randrange(3) == 0:
+                    hs.append((sid, [grp[i], grp[j], grp[i], A, grp[j]] + end, tid))
+
+
+def ac_grid(rows_for, hs, rng=None):
+    """directed: on each schema with an ascii composer, every switch key tapped once and twice in every state (idle, composing,
+    menu paged, partial selection, caret inside, ascii_mode already on through the API), followed by typing, editing and a
+    commit; the key held across another key / another switch key / its own press repeated; released after 700 ms (`sleep`: the
+    500 ms window has passed) — one state per key; Caps_Lock pressed with the Lock bit clear / set, then letters with the Lock
+    bit; the inline mode ended by each of Return, Escape, BackSpace to empty, commit, clear, selection, set_input empty."""
+    rows = [("a", "啊", "", ""), ("a", "阿", "c", ""), ("a", "呵", "", ""), ("a", "吖", "", ""), ("ab", "阿爸", "", ""), ("b", "吧", "", ""), ("b", "把", "", "")]
+    A, B = "key 97 0", "key 98 0"
+    for sid, s in SCHEMAS.items():
+        if not s.get("ascii"):
+            continue
+        tid = "ag_" + sid
+        rows_for[tid] = rows
+        end = [A, "key 49 0", "key %d 0" % XK["space"], "read_commit"]
+        states = {"idle": [], "menu": [A], "menu2": [A, B], "paged": [A, "key %d 0" % XK["Next"]], "partial": [A, B, A, "select 1"],
+                  "caret_inside": [A, B, "key %d 0" % XK["Left"]], "ascii_on": ["option ascii_mode 1"], "ascii_on_composing": [A, "option ascii_mode 1", B]}
+        pick = rng.randrange(4) if rng is not None else None
+        for n, k in enumerate(AC_KEYS):
+            code = KEYNAMES[k]
+            for sn, st in states.items():
+                if rng is not None and rng.randrange(2):
+                    continue
+                hs.append((sid, st + ac_tap(k) + end, tid))
+                hs.append((sid, st + ac_tap(k) + [B] + ac_tap(k) + end, tid))
+                hs.append((sid, st + ["key %d 0" % code, A, "key %d %d" % (code, RELEASE)] + end, tid))
+            if rng is None or n == pick:      # the harness really sleeps: one per schema in the quick tier
+                st = list(states.values())[n % len(states)]
+                hs.append((sid, st + ["key %d 0" % code, "sleep 700", "key %d %d" % (code, RELEASE)] + end, tid))
+            hs.append((sid, [A, "key %d 0" % code, "key %d 0" % code, "key %d 0" % KEYNAMES["Control_L"], "key %d %d" % (code, RELEASE)] + end, tid))
+            hs.append((sid, [A, "key %d 0" % code, "key %d %d" % (KEYNAMES["Control_R"], RELEASE | CONTROL), "key %d %d" % (code, RELEASE)] + end, tid))
+        CL = KEYNAMES["Caps_Lock"]
+        for st in ([], [A], ["option ascii_mode 1"], ac_tap("Shift_L"), [A] + ac_tap("Shift_R")):
+            for lock in (0, LOCK):
+                hs.append((sid, st + ["key %d %d" % (CL, lock), "key %d %d" % (CL, RELEASE | (LOCK - lock)), "key 97 %d" % (LOCK - lock), "key 66 %d" % ((LOCK - lock) | SHIFT),
+                                      "key 49 %d" % (LOCK - lock), "key 97 %d" % ((LOCK - lock) | RELEASE), "key %d %d" % (CL, LOCK - lock), B] + end, tid))
+        for k in ("Shift_L", "Shift_R", "Eisu_toggle"):
+            for fin in (["key %d 0" % XK["Return"]], ["key %d 0" % XK["Escape"]], ["key %d 0" % XK["BackSpace"]] * 3, ["commit"], ["clear"], ["select 0"],
+                        ["input -"], ["key %d 0" % XK["space"]], ac_tap(k), ["option ascii_mode 0"], ["key %d 0" % XK["Left"], "key %d 0" % XK["Delete"], "key %d 0" % XK["BackSpace"]]):
+                hs.append((sid, [A] + ac_tap(k) + [B, "key 49 0"] + fin + end, tid))
+
+
 def standard_histories(c, n_hist, n_ops, profile="mixed", schemas=None):
     """corpus first, then directed boundary grids, then seeded generation; returns (histories, rows_for)"""
     rows_for, hs = {}, []
@@ -958,6 +1363,8 @@ def standard_histories(c, n_hist, n_ops, profile="mixed", schemas=None):
     reopen_grid(rows_for, hs)
     earlier_match_grid(rows_for, hs)
     punct_grid(rows_for, hs)
+    kb_grid(rows_for, hs, c.rng if c.tier == "quick" else None)
+    ac_grid(rows_for, hs, c.rng if c.tier == "quick" else None)
     schemas = schemas or list(SCHEMAS)
     for t in range(max(1, n_hist // 8)):
         for sid in schemas:
